@@ -17,6 +17,19 @@ use std::sync::Arc;
 
 static FIRST_PANIC: std::sync::Mutex<String> = std::sync::Mutex::new(String::new());
 
+/// Strings in reports: long ones are cut (a megabyte string must not become a megabyte report).
+fn cut(s: &str) -> String {
+    if s.len() <= 80 {
+        format!("{s:?}")
+    } else {
+        let mut e = 60;
+        while !s.is_char_boundary(e) {
+            e -= 1;
+        }
+        format!("{:?}...({} bytes)", &s[..e], s.len())
+    }
+}
+
 fn spin_barrier(arrived: &AtomicUsize, n: usize) {
     arrived.fetch_add(1, Ordering::SeqCst);
     while arrived.load(Ordering::SeqCst) < n {
@@ -129,9 +142,24 @@ fn c05(iters: usize, threads: usize, seed: u64) -> (Vec<String>, String) {
     let mut strings = 0usize;
     let mut nblocks = 0usize;
     for it in 0..iters {
-        let block = *rng.pick(&[8usize, 16, 32, 64]);
+        // every fourth round: 1 MiB blocks under a 2.5 MiB limit, thread 0 stores one string of 1 MiB + 16 bytes
+        // (it needs the block made of "whatever budget is left", and copying it takes a while) while the
+        // others store short strings; every third of the remaining rounds: a limit a few blocks away, so that
+        // the remaining-budget branch and refusals happen while others reserve
+        let long_copy = it % 4 == 3;
+        let block = if long_copy { 1usize << 20 } else { *rng.pick(&[8usize, 16, 32, 64]) };
         let per = 12usize;
-        let rodeo: Arc<ThreadedRodeo<Spur>> = Arc::new(ThreadedRodeo::with_capacity(Capacity::new(64, NonZeroUsize::new(block).unwrap())));
+        let limit = if long_copy {
+            Some((5usize << 19) + rng.below(64) as usize)
+        } else if it % 3 == 1 {
+            Some(block * (2 + rng.below(12) as usize) + 1 + rng.below(block as u64) as usize)
+        } else {
+            None
+        };
+        let rodeo: Arc<ThreadedRodeo<Spur>> = Arc::new(match limit {
+            Some(l) => ThreadedRodeo::with_capacity_and_memory_limits(Capacity::new(64, NonZeroUsize::new(block).unwrap()), lasso::MemoryLimits::for_memory_usage(l)),
+            None => ThreadedRodeo::with_capacity(Capacity::new(64, NonZeroUsize::new(block).unwrap())),
+        });
         let arrived = Arc::new(AtomicUsize::new(0));
         let mut hs = Vec::new();
         for t in 0..threads {
@@ -142,17 +170,30 @@ fn c05(iters: usize, threads: usize, seed: u64) -> (Vec<String>, String) {
                 let mut bad = Vec::new();
                 spin_barrier(&arrived, threads);
                 for j in 0..per {
-                    let hi = if r.chance(1, 8) { (block as u64) * 2 } else { 6 };
-                    let len = r.range(1, hi) as usize;
+                    let hi = if long_copy { 24 } else if r.chance(1, 8) { (block as u64) * 2 } else { 6 };
+                    let len = if long_copy && t == 0 && j == 0 { (1usize << 20) + 12 } else { r.range(1, hi) as usize };
                     let mut s = format!("{t:x}.{j:x}.");
+                    if len > 4096 {
+                        // fill quickly, deterministically
+                        let pad = len + 4 - s.len();
+                        s.extend(std::iter::repeat((b'a' + (t as u8 % 26)) as char).take(pad));
+                    }
                     while s.len() < len + 4 {
                         s.push((b'a' + (r.below(26) as u8)) as char);
                     }
-                    let k = rodeo.get_or_intern(&s);
+                    // (under a limit a call may be refused: that string is simply not stored)
+                    let k = match rodeo.try_get_or_intern(&s) {
+                        Ok(k) => k,
+                        Err(_) if limit.is_some() => continue,
+                        Err(e) => {
+                            bad.push(format!("intern-failed-without-limit: {e:?}"));
+                            continue;
+                        }
+                    };
                     // every string this thread stored so far is still intact
                     for (x, kx) in mine.iter().chain(std::iter::once(&(s.clone(), k))) {
                         if rodeo.resolve(kx) != x.as_str() {
-                            bad.push(format!("torn-or-altered: key of {x:?} resolves to {:?}", rodeo.resolve(kx)));
+                            bad.push(format!("torn-or-altered: key of {} resolves to {}", cut(x), cut(rodeo.resolve(kx))));
                         }
                     }
                     mine.push((s, k));
@@ -178,19 +219,19 @@ fn c05(iters: usize, threads: usize, seed: u64) -> (Vec<String>, String) {
         for (x, k) in &all {
             let got = rodeo.resolve(k);
             if got != x.as_str() && fails.len() < 20 {
-                fails.push(format!("ORACLE C05 torn-or-altered at quiescence: {x:?} resolves to {got:?} (block {block}, iteration {it}, seed {seed})"));
+                fails.push(format!("ORACLE C05 torn-or-altered at quiescence: {} resolves to {} (block {block}, iteration {it}, seed {seed})", cut(x), cut(got)));
             }
             let a = got.as_ptr() as usize;
             let inside = blocks.iter().filter(|b| a >= b.0 && a + got.len() <= b.0 + b.2 && b.2 <= b.1).count();
             if inside != 1 && fails.len() < 20 {
-                fails.push(format!("ORACLE C05 region-outside-blocks: {x:?} lies in {inside} blocks' reserved prefix (block {block}, iteration {it}, seed {seed})"));
+                fails.push(format!("ORACLE C05 region-outside-blocks: {} lies in {inside} blocks' reserved prefix (block {block}, iteration {it}, seed {seed})", cut(x)));
             }
             regions.push((a, got.len(), x.as_str()));
         }
         regions.sort();
         for w in regions.windows(2) {
             if w[0].0 + w[0].1 > w[1].0 && fails.len() < 20 {
-                fails.push(format!("ORACLE C05 regions-overlap: {:?} and {:?} overlap (block {block}, iteration {it}, seed {seed})", w[0].2, w[1].2));
+                fails.push(format!("ORACLE C05 regions-overlap: {} and {} overlap (block {block}, iteration {it}, seed {seed})", cut(w[0].2), cut(w[1].2)));
             }
         }
         // no block lost: the usage counter is the sum of the blocks reachable from the list
